@@ -347,6 +347,9 @@ def cli_args(opts_s, path):
         elif k == "o":
             for x in v.split("+"):
                 a += ["-o", x]
+        elif k == "M":
+            for x in v.split("+"):
+                a += ["-M", x]
         elif k == "O":
             a += ["-O", bytes.fromhex(v).decode("utf-8", "replace")]
             have_o = True
